@@ -212,6 +212,9 @@ def check(d, v, what):
     return None
 
 
+frozenlist = tuple  # the stand-in the extracted codecs use for hail.utils.frozenlist (hashable list)
+
+
 def battery():
     I, S = ('int32',), ('str',)
     for s in payload.get('strings', []) + ['', 'abc', 'hé', '日本語', '\U0001d11e!', 'a\x00b']:
@@ -257,6 +260,10 @@ def battery():
     yield ('set', I), set(), 'set'
     yield ('set', I), {5, 1, 9, 1000, -3, 77, 12, 13, 14, 15}, 'set'
     yield ('set', S), {'a', 'é', ''}, 'set'
+    # sets whose elements are containers: elements must come back in their hashable (frozen) form whatever the caller asked for
+    yield ('set', ('array', I)), {frozenlist([1, 2]), frozenlist([3])}, 'set of arrays'
+    yield ('set', ('tuple', [('array', I), S])), {(frozenlist([1]), 'a'), (frozenlist([]), 'b')}, 'set of tuples holding arrays'
+    yield ('array', ('struct', [('s', ('set', ('array', I)))])), [{'s': {frozenlist([7, None])}}, None], 'set of arrays below a struct'
     yield ('array', ('array', I)), [[1, None], None, [], [None] * 9 + [4]], 'nested array'
     yield ('struct', [('a', ('array', S)), ('b', ('struct', [('c', I), ('d', ('tuple', [I, S]))])), ('e', ('dict', S, S))]), {'a': ['x', None], 'b': {'c': None, 'd': (1, None)}, 'e': {'k': 'v'}}, 'nested struct'
     yield ('interval', I), Interval(1, 5, True, False), 'interval'
